@@ -55,8 +55,91 @@ def none_test(test):
     return None
 
 
-def summarise(branch, stmts, in_loop=None):
+def _is_inline_close(node):
+    return attr_chain(node) == ["self", "inline_close"]
+
+
+def _none_polarity(test):
+    """`X is None` -> (X, True); `X is not None` / `not X is None` -> (X, False)"""
+    neg = False
+    if isinstance(test, ast.UnaryOp) and isinstance(test.op, ast.Not):
+        neg, test = True, test.operand
+    if isinstance(test, ast.Compare) and len(test.ops) == 1 and isinstance(test.ops[0], (ast.Is, ast.IsNot)) and isinstance(test.comparators[0], ast.Constant) \
+            and test.comparators[0].value is None and isinstance(test.left, ast.Name):
+        is_none = isinstance(test.ops[0], ast.Is) != neg
+        return test.left.id, is_none
+    return None
+
+
+def _fallback(stmts, subject):
+    """Interpret the statements executed when `subject` is None.
+    -> ('raise', exc_ok) when they always raise; ('close', guarded names) when they substitute the inline close and raise if that is
+    missing too; None when the idiom is not known."""
+    state = {}  # name -> 'close' (may be None) | 'close!' (proved not None)
+    for s in stmts:
+        if isinstance(s, ast.Raise):
+            if not state:
+                return ("raise", is_raise_value_error(s), ast.unparse(s))
+            return None
+        if isinstance(s, ast.Assign) and len(s.targets) == 1 and isinstance(s.targets[0], ast.Name):
+            if _is_inline_close(s.value):
+                state[s.targets[0].id] = "close"
+                continue
+            if isinstance(s.value, ast.Name) and s.value.id in state:
+                state[s.targets[0].id] = state[s.value.id]
+                continue
+            return None
+        if isinstance(s, ast.If) and not s.orelse and len(s.body) == 1 and isinstance(s.body[0], ast.Raise):
+            t = s.test
+            disj = t.values if isinstance(t, ast.BoolOp) and isinstance(t.op, ast.Or) else [t]
+            hit = [none_test(d) for d in disj]
+            hit = [h for h in hit if h in state]
+            if not hit:
+                return None
+            if not is_raise_value_error(s.body[0]):
+                return ("raise", False, ast.unparse(s.body[0]))
+            # other disjuncts (`or sweep is None`) are only evaluated when the subject was missing: they prove nothing in general
+            for h in hit:
+                for k in list(state):
+                    if state[k] in ("close",) and (k == h):
+                        state[k] = "close!"
+            # aliases assigned before the guard share the object
+            continue
+        if isinstance(s, ast.Pass):
+            continue
+        return None
+    if not state:
+        return None
+    # later copies of a guarded name are guarded
+    return ("close", {k for k, v in state.items() if v == "close!"}, {k for k, v in state.items() if v == "close"})
+
+
+def _fold_ifexp(node):
+    """`A if <constant> else B` -> the selected operand (after inlining a helper called with a literal flag)"""
+    while isinstance(node, ast.IfExp) and isinstance(node.test, ast.Constant):
+        node = node.body if node.test.value else node.orelse
+    return node
+
+
+def summarise(branch, stmts, in_loop=None, env=None):
+    """Events of one command branch.  Values are tracked through copies: a read creates a value id, `y = x` shares it, so the
+    events name values, not variables."""
     ev = branch.events
+    if env is None:
+        env = {}
+        branch.env = env
+    counter = getattr(branch, "_n", 0)
+
+    def fresh(name):
+        nonlocal counter
+        counter += 1
+        branch._n = counter
+        used = getattr(branch, "_used", set())
+        vid = name if name not in used else "%s#%d" % (name, counter)
+        used.add(vid)
+        branch._used = used
+        return vid
+
     for s in stmts:
         if isinstance(s, ast.While):
             if isinstance(s.test, ast.Constant) and s.test.value is True:
@@ -68,18 +151,26 @@ def summarise(branch, stmts, in_loop=None):
                 kind = "while-?"
             branch.loops.append(kind)
             ev.append(("loop", kind, s.lineno))
-            summarise(branch, s.body, kind)
+            branch._used = set()
+            summarise(branch, s.body, kind, env)
             ev.append(("endloop", kind, s.lineno))
             continue
         if isinstance(s, ast.Assign) and len(s.targets) == 1:
-            t, v = s.targets[0], s.value
+            t, v = s.targets[0], _fold_ifexp(s.value)
             if isinstance(t, ast.Name) and reader_of(v):
-                ev.append(("read", t.id, reader_of(v), s.lineno))
+                vid = fresh(t.id)
+                env[t.id] = vid
+                ev.append(("read", vid, reader_of(v), s.lineno))
                 continue
-            if isinstance(t, ast.Tuple) and isinstance(v, ast.Tuple) and len(t.elts) == len(v.elts) and all(reader_of(c) for c in v.elts) \
+            if isinstance(t, ast.Tuple) and isinstance(v, ast.Tuple) and len(t.elts) == len(v.elts) and all(reader_of(_fold_ifexp(c)) for c in v.elts) \
                     and all(isinstance(n, ast.Name) for n in t.elts):
                 for n, c in zip(t.elts, v.elts):
-                    ev.append(("read", n.id, reader_of(c), s.lineno))
+                    vid = fresh(n.id)
+                    env[n.id] = vid
+                    ev.append(("read", vid, reader_of(_fold_ifexp(c)), s.lineno))
+                continue
+            if isinstance(t, ast.Name) and isinstance(v, ast.Name) and v.id in env:
+                env[t.id] = env[v.id]
                 continue
             if ast.unparse(t) == "self.inline_close" and isinstance(v, ast.Constant) and v.value is None:
                 ev.append(("reset-close", s.lineno))
@@ -87,24 +178,51 @@ def summarise(branch, stmts, in_loop=None):
             branch.unknown.append((s.lineno, "assignment %s" % ast.unparse(s)[:60]))
             continue
         if isinstance(s, ast.If):
-            x = none_test(s.test)
-            if x is not None and not s.orelse:
-                b = s.body
-                if len(b) == 1 and is_raise_value_error(b[0]):
-                    ev.append(("check", x, "raise", s.lineno))
-                    continue
-                if len(b) == 2 and isinstance(b[0], ast.Assign) and isinstance(b[0].targets[0], ast.Name) and b[0].targets[0].id == x \
-                        and ast.unparse(b[0].value) == "self.inline_close" and isinstance(b[1], ast.If) \
-                        and len(b[1].body) == 1 and is_raise_value_error(b[1].body[0]) and not b[1].orelse:
-                    inner = b[1].test
-                    disj = inner.values if isinstance(inner, ast.BoolOp) and isinstance(inner.op, ast.Or) else [inner]
-                    if any(none_test(d) == x for d in disj):
-                        # other disjuncts (`or sweep is None`) are only evaluated when x was missing: they prove nothing in general
-                        ev.append(("check", x, "close-or-raise", s.lineno))
+            pol = _none_polarity(s.test)
+            if pol is not None and pol[0] in env:
+                x, is_none = pol
+                null_b, nonnull_b = (s.body, s.orelse) if is_none else (s.orelse, s.body)
+                copies = {}
+                ok_nn = True
+                for st in nonnull_b:
+                    if isinstance(st, ast.Assign) and len(st.targets) == 1 and isinstance(st.targets[0], ast.Name) and isinstance(st.value, ast.Name) \
+                            and (st.value.id == x or st.value.id in copies):
+                        copies[st.targets[0].id] = x
+                    elif isinstance(st, ast.Pass):
+                        pass
+                    else:
+                        ok_nn = False
+                fb = _fallback(null_b, x) if null_b else None
+                if ok_nn and fb is not None:
+                    if fb[0] == "raise":
+                        if fb[1]:
+                            ev.append(("check", env[x], "raise", s.lineno))
+                        else:
+                            ev.append(("check-wrong-exception", env[x], fb[2], s.lineno))
+                        for c in copies:
+                            env[c] = env[x]
                         continue
-                if len(b) == 1 and isinstance(b[0], ast.Raise):
-                    ev.append(("check-wrong-exception", x, ast.unparse(b[0]), s.lineno))
+                    guarded, unguarded = fb[1], fb[2]
+                    targets = set(copies) | {x}
+                    # every name that carries the value after the statement must hold the checked close on the fallback path
+                    carriers = {n for n in targets if n in guarded} | ({x} if x in guarded and not copies else set())
+                    if carriers and not (set(copies) - guarded):
+                        ev.append(("check", env[x], "close-or-raise", s.lineno))
+                        for c in carriers | set(copies):
+                            env[c] = env[x]
+                        continue
+                    if unguarded and not guarded:
+                        # the inline close is substituted but never checked: the value may still be None
+                        for c in (set(copies) | {x}) & (unguarded | set(copies)):
+                            env[c] = env[x]
+                        ev.append(("close-unchecked", env[x], s.lineno))
+                        continue
+                if ok_nn and not null_b and not copies:
                     continue
+            x = none_test(s.test)
+            if x is not None and not s.orelse and len(s.body) == 1 and isinstance(s.body[0], ast.Raise):
+                ev.append(("check" if is_raise_value_error(s.body[0]) else "check-wrong-exception", env.get(x, x), "raise" if is_raise_value_error(s.body[0]) else ast.unparse(s.body[0]), s.lineno))
+                continue
             if isinstance(s.test, ast.UnaryOp) and isinstance(s.test.op, ast.Not) and is_more(s.test.operand) and not s.orelse and len(s.body) == 1:
                 if isinstance(s.body[0], ast.Break):
                     ev.append(("exit-unless-more", s.lineno))
@@ -115,6 +233,10 @@ def summarise(branch, stmts, in_loop=None):
             if is_more(s.test) and not s.orelse and len(s.body) == 1 and is_raise_value_error(s.body[0]):
                 ev.append(("forbid-more", s.lineno))
                 continue
+            if is_more(s.test) and len(s.body) == 1 and isinstance(s.body[0], ast.Continue) and not s.orelse:
+                # `if more: continue` followed by break is the same loop exit
+                branch.unknown.append((s.lineno, "if %s" % ast.unparse(s.test)[:60]))
+                continue
             branch.unknown.append((s.lineno, "if %s" % ast.unparse(s.test)[:60]))
             continue
         if isinstance(s, ast.Expr) and isinstance(s.value, ast.Call):
@@ -122,7 +244,7 @@ def summarise(branch, stmts, in_loop=None):
             if ch and ch[:2] == ["self", "parser"] and len(ch) == 3:
                 args = []
                 for a in s.value.args:
-                    args.append(a.id if isinstance(a, ast.Name) else "?" + ast.unparse(a))
+                    args.append(env.get(a.id, a.id) if isinstance(a, ast.Name) else "?" + ast.unparse(a))
                 kw = {k.arg: ast.unparse(k.value) for k in s.value.keywords}
                 ev.append(("build", ch[2], args, kw, s.lineno))
                 continue
